@@ -58,18 +58,6 @@ WORKER = os.path.join(HERE, 'c17_worker.py')
 C17_CACHE = os.path.join(CACHE, 'c17')
 _STATE = {}
 
-# Access sites the kind system is known not to reach, by kernel and array (DESIGN section 5, C17): they are covered by
-# the hand models' theorems and by the bounds-checked build only.
-KIND_EXCEPTIONS = {
-    'weisfeiler_lehman_coloring': {'powers'},                       # powers[labels[j]]: the colour counter stays < n
-    'MinHeap.insert_key': {'self.val', 'MinHeap.swap.x#dom', 'MinHeap.swap.y#dom'},          # heap positions
-    'MinHeap.decrease_key': {'self.val', 'MinHeap.swap.x#dom', 'MinHeap.swap.y#dom'},
-    'MinHeap.pop_min': {'self.val', 'MinHeap.min_heapify.i#dom'},
-    'MinHeap.min_heapify': {'self.val', 'MinHeap.swap.x#dom', 'MinHeap.swap.y#dom', 'MinHeap.min_heapify.i#dom'},
-    'count_cliques_from_dag': {'box.ns', 'box.lab', 'indptr', 'indices', 'count_cliques_from_dag.clique_size#dom'},
-}
-
-
 def _lock():
     """One C17 run at a time: the generated Lean files are shared."""
     if 'lock' in _STATE:
@@ -106,15 +94,90 @@ def generate(ctx):
 # ================================================================================================
 # kinds
 # ================================================================================================
+WAIVERS_FILE = os.path.join(HERE, 'c17_waivers.json')
+
+
+def load_waivers():
+    """The committed baseline of what the kind system does not reach: per kernel the multiset of waived access sites
+    (by text) and the variables the definite-assignment check cannot prove assigned.  Anything beyond it is a broken
+    obligation (review M2)."""
+    if not os.path.exists(WAIVERS_FILE):
+        return {}
+    return json.load(open(WAIVERS_FILE))
+
+
+def canonical_inputs(k):
+    """A small concrete input of kernel `k` built from its declarations alone (path on 4 nodes as CSR, every other
+    array filled with a value of its element kind, every entry variable with a value of its kind): the hypotheses of
+    `kinds_sound` must be satisfiable (review M3).  Returns (dims, scalars [(id, v)], arrays [(id, contents or length)])."""
+    dimv = {'0': 0, 'n': 4, 'nnz': 6, 'm': 3, 'L': 4, 'k': 3}
+    dl = [dimv.get(d, 3) for d in k['dims']]
+    dl[0] = 0
+
+    def dval(d):
+        return dl[k['dims'].index(d)]
+
+    def pick(kind, prefer):
+        lo, hi = kind
+        v = prefer
+        if lo is not None:
+            v = max(v, lo)
+        if hi is not None:
+            v = min(v, dval(hi[0]) + hi[1] - 1)
+        return v
+    csr_ptr, csr_idx = [0, 1, 3, 5, 6], [1, 0, 2, 1, 3, 2]
+    arrs = []
+    for i, nm in enumerate(k['arrays']):
+        info = k['array_info'][nm]
+        if info['static'] and info['size'] is not None:
+            ln = max(0, dval(info['size'][0]) + info['size'][1])
+            if nm in ('indptr', 'rev_indptr') and ln == 5:
+                arrs.append((i, csr_ptr))
+            elif nm in ('indices', 'rev_indices') and ln == 6:
+                arrs.append((i, csr_idx))
+            elif info['float']:
+                arrs.append((i, ln))
+            else:
+                arrs.append((i, [pick(info['elem'], j % 3) for j in range(ln)]))
+        elif not info['static'] and nm.endswith('#ret'):
+            arrs.append((i, [pick(info['elem'], 1)]))
+    sc = []
+    for nm in k['entry_vars']:
+        prefer = dimv.get(nm, 2)
+        sc.append((k['vars'].index(nm), pick(k['var_kinds'][nm], prefer)))
+    return dl, sc, arrs
+
+
+def enc_inputs_tokens(dl, sc, arrs):
+    a = []
+    for i, c in arrs:
+        a.append('%d=#%d' % (i, c) if isinstance(c, int) else '%d=%s' % (i, enc_list(c)))
+    return '%s %s %s' % (enc_list(dl), ';'.join('%d,%d' % p for p in sc) if sc else '-', '|'.join(a) if a else '-')
+
+
+def lean_inputs(dl, sc, arrs):
+    def lst(xs):
+        return '[' + ', '.join(('(%d)' % x) if x < 0 else str(x) for x in xs) + ']'
+    a = ', '.join('(%d, %s)' % (i, ('List.replicate %d 0' % c) if isinstance(c, int) else lst(c)) for i, c in arrs)
+    return '{ dims := %s, scalars := [%s], arrs := [%s] }' % (
+        lst(dl), ', '.join('(%d, %s)' % (x, ('(%d)' % v) if v < 0 else str(v)) for x, v in sc), a)
+
+
 def kind_obligations(ctx):
     desc = _STATE['desc']
     kernels = desc['kernels']
     by_name = {k['name']: k for k in kernels}
+    waivers = load_waivers()
     for nm in _STATE['expected_kernels']:
         if nm not in by_name:
-            pr = [p for p in desc['problems'] if p.get('kernel') == nm or True]
-            ctx.broken('kernel_ir:' + nm, {'what': 'kernel no longer found / translated', 'problems': pr[:3]},
+            ctx.broken('kernel_ir:' + nm, {'what': 'kernel no longer found / translated', 'problems': desc['problems'][:3]},
                        sig={'obligation': 'kernel_ir', 'kernel': nm})
+    # every typed function of every .pyx is translated or excused by name (review M7)
+    for u in desc.get('unlisted', []):
+        ctx.broken('kernel_ir:unlisted', {'what': 'a function of a .pyx file that is neither translated nor listed in NOT_KERNELS',
+                                          'function': u}, sig={'obligation': 'kernel_ir_unlisted', 'file': u['file'],
+                                                               'function': u.get('function')})
+    ctx.count('pyx_functions_unlisted', len(desc.get('unlisted', [])))
     answers = ctx.lean(['c17.kind %s' % k['name'] for k in kernels])
     report = {}
     thms = []
@@ -122,69 +185,131 @@ def kind_obligations(ctx):
     n_ok = 0
     for k, ans in zip(kernels, answers):
         parts = ans.split(' ')
-        if len(parts) != 3 or parts[0] not in ('ok', 'bad'):
+        if len(parts) != 4 or parts[0] not in ('ok', 'bad'):
             raise ToolFailure('c17.kind %s -> %r' % (k['name'], ans))
         ok = parts[0] == 'ok'
         ill = [] if parts[1] == '-' else [int(x) for x in parts[1].split(',')]
         probs = [] if parts[2] == '-' else parts[2].split(',')
-        exc_arrays = KIND_EXCEPTIONS.get(k['name'], set())
+        unassigned = [] if parts[3] == 'assigned' else parts[3][len('unassigned:'):].split(',')
+        base = waivers.get(k['name'], {})
+        budget = dict(base.get('sites', {}))
         unexpected = []
         listed = []
         for s in ill:
             si = k['sites'][s]
             info = k['array_info'].get(si['arr'], {})
-            entry = {'site': si['text'], 'line': si['line'], 'access': si['kind']}
-            if not info.get('static', False):
-                entry['why'] = 'local container (size is dynamic)'
-                listed.append(entry)
-            elif si['arr'] in exc_arrays:
-                entry['why'] = 'documented exception (hand model + checked build)'
+            entry = {'site': si['text'], 'line': si['line'], 'access': si['kind'],
+                     'why': 'local container' if not info.get('static', False) else 'fixed array'}
+            if budget.get(si['text'], 0) > 0:
+                budget[si['text']] -= 1
                 listed.append(entry)
             else:
                 unexpected.append(entry)
+        new_unassigned = [v for v in unassigned if v not in base.get('unassigned', [])]
+        # a statement the translator could not interpret, or an array without a declared shape, is not evidence text
+        bad_notes = [nt for nt in k['notes'] if 'not interpreted' in nt or 'no declared shape' in nt]
         n_ob += 1
-        report[k['name']] = {'accepted': ok, 'sites': len(k['sites']), 'unkinded': listed, 'unexpected': unexpected,
-                             'value_problems': probs, 'notes': k['notes'][:6]}
+        report[k['name']] = {'accepted': ok, 'sites': len(k['sites']), 'waived': listed, 'unexpected': unexpected,
+                             'value_problems': probs, 'unassigned': unassigned, 'notes': k['notes'][:6]}
         ctx.case(('kind', k['name'], tuple(ill)), True,
                  sample={'request': 'c17.kind ' + k['name'], 'model': ans, 'impl': 'sites=%d' % len(k['sites'])})
-        ctx.count('kind:' + ('clean' if ok and not ill else 'exceptions' if ok and not unexpected else 'BROKEN'))
-        if ok and not unexpected:
+        good = ok and not unexpected and not new_unassigned and not bad_notes
+        ctx.count('kind:' + ('clean' if good and not ill else 'waivers' if good else 'BROKEN'))
+        if good:
             n_ok += 1
-            thms.append((k, ill))
+            thms.append((k, ill, not unassigned))
         else:
             ctx.broken('kinds:' + k['name'],
-                       {'kernel': k['name'], 'file': k['file'], 'unkinded_sites': unexpected, 'value_problems': probs,
-                        'what': 'the index-kind checker no longer accepts this kernel'},
+                       {'kernel': k['name'], 'file': k['file'], 'unkinded_sites_beyond_baseline': unexpected,
+                        'value_problems': probs, 'unassigned_beyond_baseline': new_unassigned, 'translator_notes': bad_notes,
+                        'what': 'the index-kind / definite-assignment checker no longer accepts this kernel within the '
+                                'committed waiver baseline (tools/harness/c17_waivers.json)'},
                        sig={'obligation': 'kinds', 'kernel': k['name'],
-                            'sites': sorted({u['site'] for u in unexpected}), 'problems': sorted(probs)})
+                            'sites': sorted({u['site'] for u in unexpected}), 'problems': sorted(probs),
+                            'unassigned': sorted(new_unassigned)})
     ctx.extra['kinds'] = report
-    ctx.extra['untyped_access_sites'] = {nm: [u['site'] + ' @%d' % u['line'] for u in r['unkinded']]
-                                         for nm, r in report.items() if r['unkinded']}
+    ctx.extra['untyped_access_sites'] = {nm: [u['site'] + ' @%d' % u['line'] for u in r['waived']]
+                                         for nm, r in report.items() if r['waived']}
+    _STATE['kind_report'] = report
+    # the hypotheses are satisfiable, and the IR runs on such inputs (review M3, M4): canonical inputs per kernel
+    canon = {}
+    lines = []
+    for k in kernels:
+        canon[k['name']] = canonical_inputs(k)
+        tok = enc_inputs_tokens(*canon[k['name']])
+        lines.append('c17.sat %s %s' % (k['name'], tok))
+        for seed in range(4):
+            lines.append('c17.exec %s %s 4000 %d' % (k['name'], tok, seed))
+    t_c = time.time()
+    answers = ctx.lean(lines)
+    ctx.extra.setdefault('kinds_phases_s', {})['canonical_sat_exec'] = round(time.time() - t_c, 1)
+    pos = 0
+    sat_ok = {}
+    for k in kernels:
+        sat = answers[pos]
+        execs = answers[pos + 1:pos + 5]
+        pos += 5
+        sat_ok[k['name']] = (sat == 'holds')
+        ctx.case(('canon', k['name']), True, sample={'request': lines[pos - 5][:200], 'model': sat, 'impl': execs})
+        if sat != 'holds':
+            ctx.broken('satisfiable:' + k['name'], {'what': 'the declared kinds admit no canonical input (vacuous obligation?)',
+                                                    'answer': sat, 'line': lines[pos - 5][:600]},
+                       sig={'obligation': 'satisfiable', 'kernel': k['name']})
+        waived_txt = {w['site'] for w in report[k['name']]['waived']}
+        for e in execs:
+            ctx.count('ir_exec:' + e.split(' ')[0])
+            if e.startswith('uninit'):
+                v = e.split(' ')[1]
+                if v not in waivers.get(k['name'], {}).get('unassigned', []):
+                    ctx.broken('ir_exec:' + k['name'], {'what': 'the IR run reads an unassigned variable', 'answer': e},
+                               sig={'obligation': 'ir_exec', 'kernel': k['name'], 'answer': 'uninit'})
+            elif e.startswith('oob'):
+                site = k['sites'][int(e.split(' ')[1])]['text']
+                if site not in waived_txt:
+                    raise ToolFailure('IR run out of bounds at a kinded site (contradicts kinds_sound): %s %s' % (k['name'], e))
+            elif e.split(' ')[0] not in ('ok', 'done', 'out'):
+                raise ToolFailure('c17.exec %s -> %r' % (k['name'], e))
     # kernel-checked form of the accepted obligations
     lines = ['/- GENERATED by tools/harness/c17.py: the kind obligations of this run, decided by the kernel. -/',
-             'import SkNet.Lemmas.Kinds', 'import SkNet.Generated.KernelIR', '',
+             'import SkNet.Lemmas.KindsAssigned', 'import SkNet.Generated.KernelIR', '',
              'namespace SkNet.Generated.KernelObligations', 'open SkNet.IR SkNet.Generated.KernelIR', '']
-    for k, ill in thms:
+    audit_names = []
+    for k, ill, assigned in thms:
         ln = k['lean']
         lst = '[' + ', '.join(str(x) for x in ill) + ']'
         lines.append('theorem %s_checked : %s.checkWith %s = true := by decide' % (ln, ln, lst))
         lines.append('theorem %s_inbounds (inp : Inputs) (h : inp.satisfies %s.env = true) (orc : Nat → Nat → Int) '
                      '(fuel site : Nat)\n    (hr : exec fuel %s.body (inp.state orc) = .err (.oob site)) : site ∈ (%s : List Nat) :=\n'
                      '  kinds_sound_inputs %s %s %s_checked inp h orc fuel site hr' % (ln, ln, ln, lst, ln, lst, ln))
+        audit_names.append(ln + '_inbounds')
+        if assigned:
+            lines.append('theorem %s_assigned : %s.assigned = true := by decide' % (ln, ln))
+            lines.append('theorem %s_no_uninit (inp : Inputs) (hp : inp.provides %s.params = true) (orc : Nat → Nat → Int) '
+                         '(fuel x : Nat) :\n    exec fuel %s.body (inp.state orc) ≠ .err (.uninit x) :=\n'
+                         '  assigned_sound %s.params %s.body %s_assigned inp hp orc fuel x' % (ln, ln, ln, ln, ln, ln))
+            audit_names.append(ln + '_no_uninit')
+        if sat_ok.get(k['name']):
+            lines.append('/-- the hypotheses of `%s_inbounds` are satisfiable: a concrete input built from the declarations -/' % ln)
+            lines.append('theorem %s_satisfiable : (%s : Inputs).satisfies %s.env = true ∧\n    (%s : Inputs).provides %s.params = true := by decide'
+                         % (ln, lean_inputs(*canon[k['name']]), ln, lean_inputs(*canon[k['name']]), ln))
         lines.append('')
     lines.append('end SkNet.Generated.KernelObligations')
     path = os.path.join(LEAN_DIR, 'SkNet', 'Generated', 'KernelObligations.lean')
     with open(path, 'w') as fh:
         fh.write('\n'.join(lines) + '\n')
+    t_c = time.time()
     okb, out = core.lake_build(['SkNet.Generated.KernelObligations'])
+    ctx.extra.setdefault('kinds_phases_s', {})['lake_build_obligations'] = round(time.time() - t_c, 1)
     if not okb:
         raise ToolFailure('generated obligations do not compile (driver said they hold):\n' + out[-3000:])
     aud = os.path.join(C17_CACHE, 'AuditGen.lean')
     with open(aud, 'w') as fh:
         fh.write('import SkNet.Generated.KernelObligations\n')
-        for k, _ in thms:
-            fh.write('#print axioms SkNet.Generated.KernelObligations.%s_inbounds\n' % k['lean'])
+        for nm in audit_names:
+            fh.write('#print axioms SkNet.Generated.KernelObligations.%s\n' % nm)
+    t_c = time.time()
     rc, so, se = core.lean_file(aud)
+    ctx.extra.setdefault('kinds_phases_s', {})['axiom_audit'] = round(time.time() - t_c, 1)
     import re
     found = re.findall(r"depends on axioms: \[([^\]]*)\]", (so + se).replace('\n', ' '))
     bad = [a.strip() for grp in found for a in grp.split(',') if a.strip() and a.strip() not in core.ALLOWED_AXIOMS]
